@@ -286,3 +286,85 @@ func sortSlice(n int, less func(i, j int) bool, swap func(i, j int)) {
 		}
 	}
 }
+
+// WaitGroup replaces sync.WaitGroup in instrumented code.
+type WaitGroup struct {
+	wg sync.WaitGroup
+	n  int
+	vc vclock
+}
+
+func (w *WaitGroup) Add(delta int) {
+	e := in()
+	if e == nil {
+		if cur != nil {
+			return
+		}
+		w.wg.Add(delta)
+		return
+	}
+	e.point("WaitGroup.Add")
+	w.n += delta
+	if w.n < 0 {
+		panic("sync: negative WaitGroup counter")
+	}
+	if delta < 0 {
+		e.releaseMerge(&w.vc)
+	}
+}
+
+func (w *WaitGroup) Done() { w.Add(-1) }
+
+func (w *WaitGroup) Wait() {
+	e := in()
+	if e == nil {
+		if cur != nil {
+			return
+		}
+		w.wg.Wait()
+		return
+	}
+	e.point("WaitGroup.Wait")
+	for w.n > 0 {
+		e.block(func() bool { return w.n <= 0 }, "WaitGroup.Wait")
+	}
+	e.acquire(&w.vc)
+}
+
+// Once replaces sync.Once in instrumented code.
+type Once struct {
+	once sync.Once
+	done bool
+	busy bool
+	vc   vclock
+}
+
+func (o *Once) Do(f func()) {
+	e := in()
+	if e == nil {
+		if cur != nil {
+			if !o.done {
+				o.done = true
+				f()
+			}
+			return
+		}
+		o.once.Do(f)
+		return
+	}
+	e.point("Once.Do")
+	for o.busy {
+		e.block(func() bool { return !o.busy }, "Once.Do")
+	}
+	if o.done {
+		e.acquire(&o.vc)
+		return
+	}
+	o.busy = true
+	defer func() {
+		o.done = true
+		o.busy = false
+		e.release(&o.vc)
+	}()
+	f()
+}
